@@ -3,15 +3,18 @@
 # usage: confirm_seed.sh <ID-K> [worktree]   (expects /tmp/seed-<ID> worktree and /tmp/seed-out/<ID-K>/{patch.diff,seeded_<ID>_<K>.rs})
 IDK=$1; ID=${IDK%-*}; K=${IDK#*-}; WT=${2:-/tmp/seed-$ID}; OUT=/tmp/seed-out/$IDK; LOG=$OUT/confirm.log; T=seeded_${ID}_${K}
 cd $WT || exit 2
+# demonstrations gated on salsa's shuttle feature need it enabled (one Runner per test thread)
+FEAT=""; TAIL=""
+if grep -q 'feature = "shuttle"' $OUT/$T.rs 2>/dev/null; then FEAT="--features shuttle"; TAIL="-- --test-threads=1"; fi
 git checkout -q -- . ; git clean -fdq tests/
 exec > $LOG 2>&1
 echo "== demo on unmodified source"
 cp $OUT/$T.rs tests/
-cargo test --offline --test $T 2>&1 | grep -E "^test |test result" ; A=${PIPESTATUS[0]}
+cargo test --offline $FEAT --test $T $TAIL 2>&1 | grep -E "^test |test result" ; A=${PIPESTATUS[0]}
 echo "demo_without_change_exit=$A"
 echo "== demo with change"
 git apply $OUT/patch.diff || { echo APPLY_FAILED; exit 2; }
-cargo test --offline --test $T 2>&1 | grep -E "^test |test result" ; B=${PIPESTATUS[0]}
+cargo test --offline $FEAT --test $T $TAIL 2>&1 | grep -E "^test |test result" ; B=${PIPESTATUS[0]}
 echo "demo_with_change_exit=$B"
 rm -f tests/$T.rs
 echo "== suite with change"
